@@ -522,4 +522,7 @@ def specs_fast_sis(tier):
                         tmin=1.5, tmax=4.0, menu=menu, budget=7, full=False))
         out.append(dict(fn="fast_SIS", n=n, edges=es, I0=[n - 1], tau=1.1, gamma=1.0, tw=None, rw=None,
                         tmin=-6.5, tmax=-1.0, menu=menu, budget=7, full=True))
+        if n == 3:
+            out.append(dict(fn="fast_SIS", n=n, edges=list(es) + [(1, 1)], I0=[1], tau=0.3, gamma=0.7, tw=None, rw=None,
+                            tmax=6.0, menu=menu, budget=8, full=True))
     return out
